@@ -283,3 +283,231 @@ func (w *World) insertedRecordsKeepMember(mapd string, idx int, ctxs map[string]
 	}
 	return ""
 }
+
+// */declaration-kind-is-modelled: the routine that turns a length-of, checksum, match or inline-object declaration into a field gives
+// the field the attribute of that kind.
+//
+// The grammar has one alternative per kind of computed / structured field, the generated parser one context type per alternative, and
+// the model one attribute type per kind (four rows below, the one frozen table of this rule). The generators switch on the attribute
+// type: a checksum declaration whose field leaves its visitor routine as a plain number is, to all of them, a plain number - written
+// from the caller's value, never calculated. "The kind is applied later by the caller" holds only for the callers that do so; the
+// walk over the members of an inline object calls the per-declaration routines directly. Decided per parse-phase routine that takes
+// one of the four context types and returns a field: the dynamic types the returned field's Attr can have (followed through record
+// literals and helper results) are known and include the attribute type of the declaration's kind on every return.
+var declKinds = map[string]string{
+	"LengthFieldDeclarationContext":   "LengthFieldAttribute",
+	"CheckSumFieldDeclarationContext": "CheckSumFieldAttribute",
+	"MatchFieldDeclarationContext":    "MatchFieldAttribute",
+	"InerObjectDeclarationContext":    "ObjectFieldAttribute",
+}
+
+func declarationKindIsModelled(w *World, r *Report, prop string, only map[string]bool) {
+	rule := prop + "/declaration-kind-is-modelled"
+	n := 0
+	for _, fn := range parsePhaseFuncs(w) {
+		if fn.Pkg != w.Parser || isGeneratorFunc(fn) || recvNamedCore(fn) == "PacketDslFormattor" {
+			continue
+		}
+		ctxName := ""
+		for _, p := range fn.Params {
+			if c := grammarCtxName(p.Type()); declKinds[c] != "" {
+				ctxName = c
+			}
+		}
+		if ctxName == "" || (only != nil && !only[declKinds[ctxName]]) {
+			continue
+		}
+		want := "*model." + declKinds[ctxName]
+		// the Attr values of the fields fn returns
+		var attrTypes func(v ssa.Value, depth int, seen map[ssa.Value]bool) map[string]bool
+		attrTypes = func(v ssa.Value, depth int, seen map[ssa.Value]bool) map[string]bool {
+			out := map[string]bool{}
+			if depth > 5 || seen[v] {
+				return out
+			}
+			seen[v] = true
+			switch x := v.(type) {
+			case *ssa.MakeInterface:
+				return attrTypes(x.X, depth+1, seen)
+			case *ssa.ChangeInterface:
+				return attrTypes(x.X, depth+1, seen)
+			case *ssa.Phi:
+				for _, e := range x.Edges {
+					for t := range attrTypes(e, depth+1, seen) {
+						out[t] = true
+					}
+				}
+				return out
+			case *ssa.Const:
+				return out // nil: no field
+			case *ssa.Alloc:
+				pt, ok := x.Type().(*types.Pointer)
+				if !ok || modelTypeName(pt.Elem()) != "Field" || x.Referrers() == nil {
+					out["?"] = true
+					return out
+				}
+				set := false
+				for _, ref := range *x.Referrers() {
+					fa, ok := ref.(*ssa.FieldAddr)
+					if !ok || fa.Referrers() == nil {
+						continue
+					}
+					if _, f, _, _ := fieldOf(fa); f != "Attr" {
+						continue
+					}
+					for _, r2 := range *fa.Referrers() {
+						if st, ok := r2.(*ssa.Store); ok && st.Addr == ssa.Value(fa) {
+							set = true
+							for t := range attrValueTypes(w, st.Val, 0, map[ssa.Value]bool{}) {
+								out[t] = true
+							}
+						}
+					}
+				}
+				if !set {
+					out["?"] = true
+				}
+				return out
+			case *ssa.Call:
+				if g := x.Call.StaticCallee(); g != nil && g.Blocks != nil && w.isSubjectFunc(g) {
+					forEachInstr(g, func(_ *ssa.BasicBlock, ins ssa.Instruction) {
+						if ret, ok := ins.(*ssa.Return); ok && len(ret.Results) > 0 {
+							for t := range attrTypes(ret.Results[0], depth+1, seen) {
+								out[t] = true
+							}
+						}
+					})
+					return out
+				}
+			case *ssa.TypeAssert:
+				return attrTypes(x.X, depth+1, seen)
+			case *ssa.Extract:
+				if ta, ok := x.Tuple.(*ssa.TypeAssert); ok && x.Index == 0 {
+					return attrTypes(ta.X, depth+1, seen)
+				}
+			}
+			out["?"] = true
+			return out
+		}
+		returnsField := false
+		types_ := map[string]bool{}
+		forEachInstr(fn, func(_ *ssa.BasicBlock, ins ssa.Instruction) {
+			ret, ok := ins.(*ssa.Return)
+			if !ok || len(ret.Results) == 0 {
+				return
+			}
+			for t := range attrTypes(ret.Results[0], 0, map[ssa.Value]bool{}) {
+				types_[t] = true
+				returnsField = true
+			}
+		})
+		if !returnsField {
+			continue
+		}
+		n++
+		key := fmt.Sprintf("%s: the field made from a %s carries a %s", fnKey(fn), ctxName, declKinds[ctxName])
+		switch {
+		case types_["?"]:
+			r.pass(rule, key, w.pos(fn.Pos()), "not judged: the attribute of the returned field is not a value this rule can follow")
+		case types_[want]:
+			r.pass(rule, key, w.pos(fn.Pos()), "")
+		default:
+			var got []string
+			for t := range types_ {
+				got = append(got, t)
+			}
+			r.fail(rule, key, w.pos(fn.Pos()), fmt.Sprintf("the routine that models this declaration returns a field whose attribute is %v, never a %s: wherever its result enters a field list directly (the members of an inline object are visited without the attribute-applying caller) the declaration compiles as that other kind", got, declKinds[ctxName]))
+		}
+	}
+	r.note("%s: declaration routines examined: %d", rule, n)
+}
+
+// metaDataAttrTypes: the dynamic types that are ever stored into MetaData.Attr (literals and member stores), other than copies of
+// another entry's attribute.
+func metaDataAttrTypes(w *World) map[string]bool {
+	out := map[string]bool{}
+	for _, fn := range w.srcFuncs {
+		if !w.isSubjectFunc(fn) {
+			continue
+		}
+		forEachInstr(fn, func(_ *ssa.BasicBlock, ins ssa.Instruction) {
+			st, ok := ins.(*ssa.Store)
+			if !ok {
+				return
+			}
+			fa, ok := st.Addr.(*ssa.FieldAddr)
+			if !ok {
+				return
+			}
+			if tn, f, _, _ := fieldOf(fa); tn != "MetaData" || f != "Attr" {
+				return
+			}
+			for t := range attrValueTypesNoMeta(w, st.Val, 0, map[ssa.Value]bool{}) {
+				out[t] = true
+			}
+		})
+	}
+	return out
+}
+
+func isMetaDataAttrRead(v ssa.Value) bool {
+	switch x := v.(type) {
+	case *ssa.Field:
+		tn, f, _, _ := fieldOf(x)
+		return tn == "MetaData" && f == "Attr"
+	case *ssa.UnOp:
+		if fa, ok := x.X.(*ssa.FieldAddr); ok && x.Op == token.MUL {
+			tn, f, _, _ := fieldOf(fa)
+			return tn == "MetaData" && f == "Attr"
+		}
+	}
+	return false
+}
+
+func attrValueTypesNoMeta(w *World, v ssa.Value, depth int, seen map[ssa.Value]bool) map[string]bool {
+	out := map[string]bool{}
+	if depth > 6 || seen[v] {
+		return out
+	}
+	seen[v] = true
+	if ph, ok := v.(*ssa.Phi); ok {
+		for _, e := range ph.Edges {
+			for t := range attrValueTypesNoMeta(w, e, depth+1, seen) {
+				out[t] = true
+			}
+		}
+		return out
+	}
+	if isMetaDataAttrRead(v) {
+		return out // a copy of another entry's attribute adds no new type
+	}
+	for t := range w.dynTypes(v, "PacketDslVisitorImpl", 0, map[*ssa.Function]bool{}, map[ssa.Value]bool{}) {
+		out[t] = true
+	}
+	return out
+}
+
+// attrValueTypes: the dynamic types an attribute value can have; a read of a MetaData entry's attribute has the types that are ever
+// stored there.
+func attrValueTypes(w *World, v ssa.Value, depth int, seen map[ssa.Value]bool) map[string]bool {
+	out := map[string]bool{}
+	if depth > 6 || seen[v] {
+		return out
+	}
+	seen[v] = true
+	if ph, ok := v.(*ssa.Phi); ok {
+		for _, e := range ph.Edges {
+			for t := range attrValueTypes(w, e, depth+1, seen) {
+				out[t] = true
+			}
+		}
+		return out
+	}
+	if isMetaDataAttrRead(v) {
+		return metaDataAttrTypes(w)
+	}
+	for t := range w.dynTypes(v, "PacketDslVisitorImpl", 0, map[*ssa.Function]bool{}, map[ssa.Value]bool{}) {
+		out[t] = true
+	}
+	return out
+}
